@@ -1,5 +1,7 @@
 import Mercure.Lemmas.BoltStore
+import Mercure.Lemmas.Form
 import Mercure.Lemmas.Event
+import Mercure.Props.C02
 import Mercure.Generated.Facts
 /-
   C12 — Every update is written as exactly one SSE event decoding to what was published.
@@ -71,6 +73,62 @@ theorem repo_json_fields :
     ∧ Facts.boltValueCodec = "encoding/json" := by
   decide +kernel
 
+/-! ### from the POST body to the subscriber's stream (Model/Form → Publish → Json → Event) -/
+
+/-- The request `PublishHandler` sees for a form-encoded body. -/
+def reqOfBody (auth : AuthReq) (body : Form.Bytes) : Option PubReq :=
+  (Form.fieldsOf body).map fun f =>
+    { auth := auth, formOk := f.formOk, topics := f.topics, retryStr := f.retry, priv := f.priv,
+      data := f.data, id := f.id, type := f.type }
+
+/-- What the hub reads from the body is what the publisher form-encoded: topics in order, data, id,
+    type, the retry text, the private flag — for all UTF-8 strings. -/
+theorem posted_fields_are_read_back (topics : List Str) (retry data id type : Str) (priv : Bool) :
+    Form.fieldsOf (Form.bodyOf topics retry data id type priv) =
+      some { formOk := true, topics := topics, retry := retry, priv := priv, data := data, id := id, type := type } :=
+  Form.fieldsOf_bodyOf topics retry data id type priv
+
+theorem form_roundtrip (kvs : List (Form.Bytes × Form.Bytes)) : Form.parseQuery (Form.encodePairs kvs) = (kvs, false) :=
+  Form.parseQuery_encodePairs kvs
+
+theorem parseUint64_toDigits (n : Nat) (h : n < 2 ^ 64) : parseUint64 (Nat.toDigits 10 n) = some n := by
+  have hd := allDigits_toDigits n
+  unfold allDigits at hd
+  unfold parseUint64
+  rw [if_pos hd]
+  simp [Nat.ofDigitChars_ten_toDigits, h]
+
+/-- **End to end**: a publisher form-encodes an update (any UTF-8 topics, data, id, type; any 64-bit
+    retry; private or not) and the hub accepts the request (C02 says when). Then the update the hub
+    builds carries exactly the posted fields; what the Bolt transport stores for it decodes to it; and
+    the bytes written to a subscriber — live or replayed — form exactly one event that a conformant
+    parser decodes to the posted id, type, retry and data (line ends normalised to LF). -/
+theorem post_to_event (cfg : HubCfg) (M : Str → Str → Bool) (tok : Str → Option Claims) (auth : AuthReq)
+    (topics : List Str) (data id type : Str) (retry : Nat) (priv debug : Bool) (hr : retry < 2 ^ 64)
+    (hid : noLineBreak id) (hty : noLineBreak type) (req : PubReq) (u : Update)
+    (hreq : reqOfBody auth (Form.bodyOf topics (Nat.toDigits 10 retry) data id type priv) = some req)
+    (hacc : publish cfg M tok req = .accepted u) :
+    u = { id := id, topics := topics, priv := priv, data := data, type := type, retry := retry } ∧
+    Json.parseUpdate (Json.update debug u) = some (debug, u) ∧
+    parseSSE ({ data := u.data, id := u.id, type := u.type, retry := u.retry } : Event).encode
+      = [{ id := id, type := type, data := normaliseEOL data, retry := if retry = 0 then none else some retry }] := by
+  unfold reqOfBody at hreq
+  rw [Form.fieldsOf_bodyOf] at hreq
+  simp only [Option.map_some, Option.some.injEq] at hreq
+  subst hreq
+  obtain ⟨h1, h2, h3, h4, h5, h6⟩ := C02.publish_accepted_shape cfg M tok _ u hacc
+  simp only at h1 h2 h3 h4 h5 h6
+  have hne : Nat.toDigits 10 retry ≠ [] := Nat.toDigits_ne_nil
+  rw [if_neg hne, parseUint64_toDigits retry hr] at h6
+  have hu : u = { id := id, topics := topics, priv := priv, data := data, type := type, retry := retry } := by
+    cases u
+    simp only [Update.mk.injEq]
+    simp only at h1 h2 h3 h4 h5 h6
+    exact ⟨h4, h1, h2, h3, h5, (Option.some.inj h6).symm⟩
+  refine ⟨hu, Json.parseUpdate_update debug u (by rw [hu]; exact hr), ?_⟩
+  subst hu
+  exact Mercure.parse_encode _ hid hty
+
 /-! non-vacuity: a payload with quotes, a backslash, controls, HTML-sensitive and astral characters -/
 def sampleUpdate : Update :=
   { id := "i\"d".toList, topics := ["a<b".toList, [Char.ofNat 0, Char.ofNat 0x2028]], priv := true,
@@ -89,3 +147,6 @@ end Mercure.C12
 #print axioms Mercure.C12.stored_strings_have_no_raw_control
 #print axioms Mercure.C12.replayed_events_are_the_stored_ones
 #print axioms Mercure.C12.repo_json_fields
+#print axioms Mercure.C12.posted_fields_are_read_back
+#print axioms Mercure.C12.form_roundtrip
+#print axioms Mercure.C12.post_to_event
